@@ -190,6 +190,80 @@ def check_inverse(fx, R, f, fwd):
             elif sy.name in ('this.ellipsoid_.a',): m_[sy] = a
             elif sy.name in ('this.ellipsoid_.e2',): m_[sy] = e2
         return expr.subs(m_)
+    # ---- early exits of the prologue: judged by VALUE on witness points produced by the library's own forward map ------------------------
+    exits = [st for st in pres if getattr(st, 'returned', False)]
+    pres = [st for st in pres if not getattr(st, 'returned', False)]
+    for st in exits:
+        desc = ' && '.join(('' if c_[2] else '!') + '(' + c_[0] + ')' for c_ in st.cond)
+        ret = st.ret
+        comp = {k_: ret.get(k_) for k_ in ('latitude', 'longitude', 'altitude')} if isinstance(ret, dict) else None
+        if not comp or not all(isinstance(v_, sp.Basic) for v_ in comp.values()):
+            R.undecided('F9', 'ECEFConverter::toWGS84:early-exit[%s]' % desc, 'an exit in front of the iteration returns a value that is not readable')
+            continue
+        A_, E2_ = sp.Float('6378137.0', 50), sp.Float('0.00669437999014', 50)
+        verdict, reached = None, 0
+        for lon_w in (sp.Integer(0), sp.Rational(7, 10), -sp.Rational(5, 2), sp.Integer(3)):
+            for lat_w in (-sp.Rational(1047, 1000), sp.Rational(3, 10), sp.Rational(4, 5), sp.Integer(0)):
+                for h_w in (sp.Integer(0), sp.Integer(350), -sp.Integer(100)):
+                    env = {lat: lat_w, lon: lon_w, h: h_w, a: A_, e2: E2_}
+
+                    def num(x_):
+                        v_ = substitute(x_).subs(env)
+                        bsym = [y_ for y_ in v_.free_symbols if y_.name == 'this.ellipsoid_.b']
+                        if bsym:
+                            v_ = v_.subs(bsym[0], A_ * sp.sqrt(1 - E2_))
+                        return v_
+                    ok = True
+                    for c_ in st.cond:
+                        if not isinstance(c_[1], sp.Basic):
+                            ok = None
+                            break
+                        cv = num(c_[1])
+                        if cv not in (sp.true, sp.false):
+                            try:
+                                cv = sp.simplify(cv)
+                            except Exception:
+                                pass
+                        if cv not in (sp.true, sp.false):
+                            ok = None
+                            break
+                        if bool(cv) != c_[2]:
+                            ok = False
+                            break
+                    if ok is None:
+                        verdict = verdict or ('undecided', 'the exit condition is not evaluable on the witness points')
+                        continue
+                    if not ok:
+                        continue
+                    reached += 1
+                    try:
+                        d_lat = abs(sp.N(num(comp['latitude']) - lat_w, 30))
+                        d_alt = abs(sp.N(num(comp['altitude']) - h_w, 30))
+                    except (TypeError, ValueError):
+                        verdict = verdict or ('undecided', 'the returned value is not evaluable on the witness points')
+                        continue
+                    if not d_lat.is_real or not d_alt.is_real:
+                        verdict = verdict or ('undecided', 'the returned value is not evaluable on the witness points')
+                    elif d_lat > sp.Float('1.5e-10') or d_alt > sp.Float('1e-3'):
+                        verdict = ('violated', 'the point (latitude %s rad, longitude %s rad, height %s m), sent through toECEF, satisfies the exit condition [%s] in front of the latitude iteration, and the exit returns '
+                                   'latitude %s rad, height %s m: off by %s rad and %s m (the point is inside the quantifier: e.g. every point of the prime meridian has Y == 0 exactly)' % (
+                                       lat_w, lon_w, h_w, desc, sp.N(num(comp['latitude']), 8), sp.N(num(comp['altitude']), 10), sp.N(d_lat, 3), sp.N(d_alt, 3)))
+                        break
+                if verdict and verdict[0] == 'violated':
+                    break
+            if verdict and verdict[0] == 'violated':
+                break
+        if verdict and verdict[0] == 'violated':
+            R.violated('F9', 'ECEFConverter::toWGS84:early-exit', verdict[1], loc, 'E-ALG')
+        elif verdict:
+            R.undecided('F9', 'ECEFConverter::toWGS84:early-exit[%s]' % desc, verdict[1])
+        elif reached:
+            R.holds('F9', 'ECEFConverter::toWGS84:early-exit[%s]' % desc, 'returns the point\'s own latitude and height on the %d witness points that reach it' % reached, loc, 'E-ALG')
+        else:
+            R.undecided('F9', 'ECEFConverter::toWGS84:early-exit[%s]' % desc, 'an exit in front of the iteration that none of the witness points of the quantifier reaches: whether any input of the quantifier does is not decided')
+    if not pres:
+        R.undecided('F2', 'ECEFConverter::toWGS84', 'every path of the prologue returns')
+        return
     # ---- longitude -----------------------------------------------------------------------
     for st in pres:
         lonv = st.locals.get(ids.get('longitude'))
